@@ -75,7 +75,7 @@ def run_harness(binary, args, timeout=600):
 # ---------------------------------------------------------------------------------------------------------------------
 # Coq side
 
-FORBIDDEN = re.compile(r"\b(Admitted|admit|Axiom|Axioms|Parameter|Parameters|Conjecture|Hypothesis|Variable|bypass_check|Unset\s+Guard|Unset\s+Positivity|Unset\s+Universe|type-in-type|impredicative-set|native_compute)\b")
+FORBIDDEN = re.compile(r"\b(Admitted|admit(?=\s*[.;])|give_up|Axiom|Axioms|Parameter|Parameters|Conjecture|Hypothesis|Variable|bypass_check|Unset\s+Guard|Unset\s+Positivity|Unset\s+Universe|type-in-type|impredicative-set|native_compute)\b")
 
 
 def strip_comments(text):
@@ -100,11 +100,17 @@ def audit_sources():
     """Greps the development for anything that would declare an axiom or switch a kernel check off.
     Variables/Hypotheses are allowed inside a Section only (Base.v's AList section)."""
     bad = []
+    listed = [l.strip() for l in open(os.path.join(COQ, "_CoqProject")) if l.strip().endswith(".v")]
+    on_disk = []
     for root, _, files in os.walk(os.path.join(COQ, "theories")):
         for f in files:
-            if not f.endswith(".v"):
-                continue
-            path = os.path.join(root, f)
+            if f.endswith(".v"):
+                on_disk.append(os.path.relpath(os.path.join(root, f), COQ))
+    for f in sorted(set(on_disk) - set(listed)):
+        bad.append("coq/%s is not listed in _CoqProject (every file under theories/ must be built and audited)" % f)
+    for rel in listed:
+        if True:
+            path = os.path.join(COQ, rel)
             text = strip_comments(open(path).read())
             in_section = 0
             for n, line in enumerate(text.splitlines(), 1):
